@@ -37,7 +37,7 @@ REQUIRED_COUNTERS = {"quick": {"judged:regress": 10000, "judged:mse": 10000, "S:
                      "thorough": {"judged:regress": 100000, "judged:mse": 100000, "S:empty": 3000, "S:contains-y": 3000, "S:int": 2000, "S:range": 2000,
                                   "meta:monotone": 20000, "meta:order": 20000, "meta:mean-free": 20000, "lganm:variables-with-parents": 20000,
                                   "lganm:intervened": 10000}}
-N = {"quick": {"dist": 1600, "lganm": 2000}, "thorough": {"dist": 20000, "lganm": 30000}}
+N = {"quick": {"dist": 1600, "lganm": 2000}, "thorough": {"dist": 150000, "lganm": 250000}}
 EPS = 2.0 ** -52
 
 
